@@ -1135,7 +1135,12 @@ func verifSetSemantics(a, b, c jsonArray, options []Option) bool {
 	if _, keyed := getOption[setKeysOption](options); keyed {
 		return true
 	}
-	d := a.Diff(b, options...)
+	return verifSetSemanticsOf(a.Diff(b, options...), c, options)
+}
+
+// verifSetSemanticsOf: the same reference for any diff d made of root-level set / multiset hunks.
+func verifSetSemanticsOf(d Diff, c jsonArray, options []Option) bool {
+	kind := specArrayKind(options)
 	ref := append([]JsonNode{}, verifCloneNodes(c)...)
 	if kind == 2 {
 		// a set target: duplicates collapse
@@ -1324,3 +1329,100 @@ func verifKeyedMembers(target jsonArray, pathKeys jsonObject, newV JsonNode) int
 // verifObjectMembers (C04, C05, C01): Equals, "empty iff equal" and the round trip over arrays whose
 // object members differ only in how their keys and values are cut (verifAmbiguousObjectDocs).
 func verifObjectMembers(a, b JsonNode, options []Option) Diff { return a.Diff(b, options...) }
+
+// verifHashShapes (C04, C05, C01): see verifHashShapeDocs.
+func verifHashShapes(a, b JsonNode, options []Option) Diff { return a.Diff(b, options...) }
+
+// verifHandHunk (C08): a hand-written set / multiset hunk - removes and adds chosen freely, so they
+// may overlap or repeat a value - applied to c removes exactly the listed members (an error when one
+// is absent, or not present often enough in a multiset) and adds the listed ones.
+func verifHandHunk(rm, ad, c jsonArray, options []Option) bool {
+	var pe PathElement = PathSet{}
+	if specArrayKind(options) == 3 {
+		pe = PathMultiset{}
+	}
+	if specArrayKind(options) == 2 {
+		// (a set hunk that lists one value twice on a side is not a set hunk)
+		for i := range rm {
+			for j := i + 1; j < len(rm); j++ {
+				if specEq(rm[i], rm[j], options) {
+					return true
+				}
+			}
+		}
+		for i := range ad {
+			for j := i + 1; j < len(ad); j++ {
+				if specEq(ad[i], ad[j], options) {
+					return true
+				}
+			}
+		}
+	}
+	if len(rm) == 0 && len(ad) == 0 {
+		return true
+	}
+	d := Diff{{Path: Path{pe}, Remove: verifCloneNodes(rm), Add: verifCloneNodes(ad)}}
+	return verifSetSemanticsOf(d, c, options)
+}
+
+// verifBagScalars (C08): verifSetSemantics over members that are a scalar and the string spelling it.
+func verifBagScalars(a, b, c jsonArray, options []Option) bool {
+	return verifSetSemantics(a, b, c, options)
+}
+
+// verifRecurses (C06): "recurses into same-position containers of the same kind instead of replacing
+// them". code spells an array pair slot by slot (base 5, up to four slots): 0 the same scalar on both
+// sides, 1 different scalars, 2 objects that differ inside, 3 arrays that differ inside, 4 nothing.
+// All scalar values are distinct across slots, so the only common elements are the slots of kind 0
+// and every container faces its counterpart: no hunk at the level of the array may then remove or
+// add a container, and the array-level hunks remove and add exactly one element per slot of kind 1.
+func verifRecurses(code int) string {
+	var a, b jsonArray
+	want := 0
+	for i := 0; i < 4; i++ {
+		f := float64(i)
+		switch code % 5 {
+		case 0:
+			a, b = append(a, jsonNumber(10+f)), append(b, jsonNumber(10+f))
+		case 1:
+			a, b = append(a, jsonNumber(20+f)), append(b, jsonNumber(30+f))
+			want++
+		case 2:
+			a, b = append(a, jsonObject{"a": jsonNumber(40 + f)}), append(b, jsonObject{"a": jsonNumber(50 + f)})
+		case 3:
+			a, b = append(a, jsonArray{jsonNumber(60 + f), jsonNumber(1)}), append(b, jsonArray{jsonNumber(70 + f), jsonNumber(1)})
+		}
+		code /= 5
+	}
+	for _, wrap := range []func(JsonNode) JsonNode{func(n JsonNode) JsonNode { return n }, func(n JsonNode) JsonNode { return jsonObject{"k": n} }} {
+		x, y := wrap(verifCloneNode(a)), wrap(verifCloneNode(b))
+		d := x.Diff(y)
+		if !verifPatchGives(x, d, y, nil) {
+			return "diff then patch"
+		}
+		level := 1
+		if _, isObj := x.(jsonObject); isObj {
+			level = 2
+		}
+		rm, ad := 0, 0
+		for _, e := range d {
+			if len(e.Path) != level {
+				continue
+			}
+			for _, v := range append(append([]JsonNode{}, e.Remove...), e.Add...) {
+				switch v.(type) {
+				case jsonObject, jsonArray:
+					return "a container that faces a container of the same kind is replaced instead of recursed into"
+				}
+			}
+			rm, ad = rm+len(e.Remove), ad+len(e.Add)
+		}
+		if rm != want || ad != want {
+			return "the array-level hunks do not remove and add one element per changed scalar"
+		}
+	}
+	return ""
+}
+
+// verifTagged: the failure description s belongs to the statement of property tag ("C09: ...").
+func verifTagged(s, tag string) bool { return strings.HasPrefix(s, tag) }
